@@ -256,7 +256,20 @@ func simple(s Node) string { // for-loop pre/post parts
 	return strings.TrimSuffix(strings.TrimSpace(Stmt(s, "")), ";")
 }
 
+// Stmt renders one statement.  A statement that carries a label (field "lbl",
+// see spec/Cover.tla) gets the comment marker  #@<label>  at the end of its
+// first line, from which a harness can recover the line each statement is on.
 func Stmt(s Node, ind string) string {
+	out := stmtText(s, ind)
+	if lbl, ok := s["lbl"].(string); ok {
+		if i := strings.IndexByte(out, '\n'); i >= 0 {
+			out = out[:i] + " #@" + lbl + out[i:]
+		}
+	}
+	return out
+}
+
+func stmtText(s Node, ind string) string {
 	switch kind(s) {
 	case "expr":
 		return ind + bareExpr(s["e"].(Node)) + "\n"
@@ -311,43 +324,47 @@ func Stmt(s Node, ind string) string {
 }
 
 // Program renders [begin, rules, end, funcs].
-func Program(p Node) string {
-	var sb strings.Builder
+func Program(p Node) string { return strings.Join(ProgramItems(p), "") }
+
+// ProgramItems renders the top-level items (functions, BEGIN, rules, END) one
+// string each, in source order.
+func ProgramItems(p Node) []string {
+	items := []string{}
 	for _, f := range nodes(p["funcs"]) {
 		params := []string{}
 		for _, pr := range nodes(f["params"]) {
 			params = append(params, pr["n"].(string))
 		}
-		sb.WriteString("function " + f["name"].(string) + "(" + strings.Join(params, ", ") + ") " +
-			block(nodes(f["body"]), "") + "\n")
+		items = append(items, "function "+f["name"].(string)+"("+strings.Join(params, ", ")+") "+
+			block(nodes(f["body"]), "")+"\n")
 	}
 	if b := nodes(p["begin"]); len(b) > 0 {
-		sb.WriteString("BEGIN " + block(b, "") + "\n")
+		items = append(items, "BEGIN "+block(b, "")+"\n")
 	}
 	for _, r := range nodes(p["rules"]) {
 		pat := r["pat"].(Node)
 		nobody, _ := r["nobody"].(bool)
 		if p2, ok := r["pat2"].(Node); ok && kind(p2) != "none" {
 			if nobody {
-				sb.WriteString(Bare(pat) + ", " + Bare(p2) + "\n")
+				items = append(items, Bare(pat)+", "+Bare(p2)+"\n")
 			} else {
-				sb.WriteString(Bare(pat) + ", " + Bare(p2) + " " + block(nodes(r["body"]), "") + "\n")
+				items = append(items, Bare(pat)+", "+Bare(p2)+" "+block(nodes(r["body"]), "")+"\n")
 			}
 			continue
 		}
 		switch {
 		case kind(pat) == "none":
-			sb.WriteString(block(nodes(r["body"]), "") + "\n")
+			items = append(items, block(nodes(r["body"]), "")+"\n")
 		case nobody:
-			sb.WriteString(Expr(pat) + "\n")
+			items = append(items, Expr(pat)+"\n")
 		default:
-			sb.WriteString(Expr(pat) + " " + block(nodes(r["body"]), "") + "\n")
+			items = append(items, Expr(pat)+" "+block(nodes(r["body"]), "")+"\n")
 		}
 	}
 	if e := nodes(p["end"]); len(e) > 0 {
-		sb.WriteString("END " + block(e, "") + "\n")
+		items = append(items, "END "+block(e, "")+"\n")
 	}
-	return sb.String()
+	return items
 }
 
 // Input joins records with newlines.
